@@ -1,6 +1,7 @@
 """Run loop: one seed -> one exactly repeatable history, judged by an oracle."""
 import hashlib
 import json
+import os
 import random
 import time
 
@@ -159,6 +160,14 @@ def simulate(oracle_cls, seed):
     rng = random.Random(seed)
     proto = oracle_cls(None)
     cfg = proto.swarm(rng)
+    if os.environ.get("PROVSIM_TIER") == "thorough" and "steps" in cfg:
+        # deeper bounds in the thorough tier: a third of the histories are 2-3 times longer
+        k = rng.choice([1, 1, 1, 1, 2, 3])
+        if k > 1:
+            extra = cfg["steps"] * (k - 1)
+            cfg["steps"] += extra
+            if "total_steps" in cfg:
+                cfg["total_steps"] += extra
     oracle = oracle_cls(cfg)
     gen = oracle.make_gen(rng)
     return execute(oracle, gen, seed, nsteps=cfg.get("total_steps", cfg.get("steps", 20)), rng=rng)
